@@ -147,7 +147,7 @@ type world struct {
 	gates  *gates
 	roots  []*spec
 	trace  []string
-	parked []chan struct{} // handler gates still closed
+	parked []chan struct{}  // handler gates still closed
 	seen   map[gen.PID]bool // incarnations that were observed in the process table (really started)
 }
 
@@ -417,8 +417,8 @@ func (w *world) hit(label string, pid gen.PID, kind int) {
 }
 
 var recTree = kit.NewRecorder("C10", "trees",
-	"1-2 root trees of depth <= 3, fan-out <= 3, mixing supervisors of all four types (all strategies, keep-order on/off, simple-one-for-one with dynamic children), pools and plain workers, started standalone or as members of an application; 1-3 faults {Kill, abnormal exit signal, shutdown exit signal, crash, normal exit, panic} at generated processes, placed idle, while a child of the target is parked in its Init (start-up or restart in progress), or while a child is busy in a handler (slow shutdown); then a final action in {none, ApplicationStop, Node.Stop, Node.StopForce}; "+
-		"oracle: every recorded incarnation knows its parent incarnation; a process that is alive while its owner incarnation has terminated is an orphan (polled 5 s, then a stable witness); ApplicationStop()==nil implies state loaded and no live process carrying that application; after Node.Stop/StopForce every recorded process has terminated; "+
+	"1-3 root trees of depth <= 3, fan-out <= 3, mixing supervisors of all four types (all strategies, keep-order on/off, simple-one-for-one with dynamic children), pools and plain workers, started standalone or as members of an application (optionally after a short-lived first member that stops by itself); 1-3 faults {Kill, abnormal exit signal, shutdown exit signal, crash, normal exit, panic} at generated processes, placed idle, while a child of the target is parked in its Init (start-up or restart in progress), or while a child is busy in a handler (slow shutdown); then a final action in {none, ApplicationStop, Node.Stop, Node.StopForce}; "+
+		"oracle: every recorded incarnation knows its parent incarnation; a process that is alive while its owner incarnation has terminated is an orphan (polled 5 s, then a stable witness); ApplicationStop()==nil implies state loaded and no live process carrying that application; a failed ApplicationStart leaves state loaded and no live process carrying the application; after Node.Stop/StopForce every recorded process has terminated; "+
 		"non-trivial = a fault hit a supervisor or pool while one of its children was starting, restarting or busy; distinct by tree and history")
 
 func TestTrees(t *testing.T) {
@@ -438,8 +438,11 @@ func TestTrees(t *testing.T) {
 				node.StopForce()
 			}
 		}()
-		nroots := rapid.IntRange(1, 2).Draw(t, "roots")
+		nroots := rapid.IntRange(1, 3).Draw(t, "roots")
 		asApp := rapid.Bool().Draw(t, "as-application")
+		// an application may begin with a short-lived member (an "init job": it stops by itself, with
+		// reason normal, as soon as it runs - usually while the other members are still being started)
+		job := asApp && rapid.Bool().Draw(t, "job-member")
 		for i := 0; i < nroots; i++ {
 			r := genSpec(t, fmt.Sprintf("r%d", i), 2)
 			if r.kind == kWorker {
@@ -486,6 +489,12 @@ func TestTrees(t *testing.T) {
 		go func() {
 			if asApp {
 				sp := gen.ApplicationSpec{Name: "orphans", Mode: gen.ApplicationModeTemporary}
+				if job {
+					sp.Group = append(sp.Group, gen.ApplicationMemberSpec{Factory: kit.Factory(&kit.ActorConfig{Label: "job", Probe: w.probe, Quiet: true,
+						OnInit: func(a *kit.Actor, args ...any) error {
+							return a.Send(a.PID(), kit.Stop{Reason: gen.TerminateReasonNormal})
+						}})})
+				}
 				for _, r := range w.roots {
 					sp.Group = append(sp.Group, gen.ApplicationMemberSpec{Factory: w.factory(r)})
 				}
@@ -583,6 +592,28 @@ func TestTrees(t *testing.T) {
 		}
 		w.quiet(5 * time.Second)
 		w.checkOrphans("after start-up")
+		if asApp && berr != nil {
+			// the start failed: the application is not running, and nothing it started may keep running
+			if info, err := node.ApplicationInfo("orphans"); err == nil && info.State != gen.ApplicationStateLoaded {
+				t.Fatalf("ApplicationStart failed (%v) and left the application in state %s\n  tree: %s\n  history: %s", berr, info.State, w.describe(), strings.Join(w.trace, "; "))
+			}
+			var left []string
+			gone := kit.WaitUntil(5*time.Second, func() bool {
+				left = left[:0]
+				for _, i := range w.instances() {
+					if !i.initOK || !w.alive(i.pid) {
+						continue
+					}
+					if pi, err := node.ProcessInfo(i.pid); err == nil && pi.Application == "orphans" {
+						left = append(left, fmt.Sprintf("%s %s", i.label, i.pid))
+					}
+				}
+				return len(left) == 0
+			})
+			if !gone {
+				t.Fatalf("ApplicationStart failed (%v), the application is not running, and these processes it started are still alive: %s\n  tree: %s\n  history: %s", berr, strings.Join(left, "; "), w.describe(), strings.Join(w.trace, "; "))
+			}
+		}
 
 		// phase B: faults on the settled tree
 		nfaults := rapid.IntRange(0, 3).Draw(t, "faults")
@@ -803,6 +834,12 @@ func TestTrees(t *testing.T) {
 		labels := []string{"final=" + final}
 		if asApp {
 			labels = append(labels, "application")
+		}
+		if job {
+			labels = append(labels, "short-lived-member")
+		}
+		if asApp && berr != nil {
+			labels = append(labels, "application-start-failed")
 		}
 		if nontrivial {
 			labels = append(labels, "fault-during-start-restart-or-busy")
